@@ -9,6 +9,7 @@ From Coq Require Import NArith ZArith List Bool.
 From JV Require Import Gen.Consts Model.TT.
 Import ListNotations.
 Local Open Scope Z_scope.
+Set Implicit Arguments.
 
 Definition updl {A} (l : list A) (i : nat) (v : A) : list A :=
   firstn i l ++ match skipn i l with [] => [] | _ :: r => v :: r end.
@@ -52,18 +53,19 @@ Record env := mkEnv {
   rtab : list N; ridx : nat;
   killers0 : list (option move); killers1 : list (option move); history : list Z;
   follow_pv : bool; score_pv : bool;
-  trace : list event }.
+  trace : list event;
+  snap : option (tt * list (list move) * list nat) }.    (* ghost: TT and PV table at the moment the stop was first observed *)
 
-Definition set_ply e p := mkEnv (nodes e) p (stopping e) (npolls e) (pvlen e) (pvtab e) (tbl e) (tt_hits e) (rtab e) (ridx e) (killers0 e) (killers1 e) (history e) (follow_pv e) (score_pv e) (trace e).
-Definition set_nodes e n := mkEnv n (ply e) (stopping e) (npolls e) (pvlen e) (pvtab e) (tbl e) (tt_hits e) (rtab e) (ridx e) (killers0 e) (killers1 e) (history e) (follow_pv e) (score_pv e) (trace e).
-Definition set_pv e l t := mkEnv (nodes e) (ply e) (stopping e) (npolls e) l t (tbl e) (tt_hits e) (rtab e) (ridx e) (killers0 e) (killers1 e) (history e) (follow_pv e) (score_pv e) (trace e).
-Definition set_tbl e t := mkEnv (nodes e) (ply e) (stopping e) (npolls e) (pvlen e) (pvtab e) t (tt_hits e) (rtab e) (ridx e) (killers0 e) (killers1 e) (history e) (follow_pv e) (score_pv e) (trace e).
-Definition set_hits e h := mkEnv (nodes e) (ply e) (stopping e) (npolls e) (pvlen e) (pvtab e) (tbl e) h (rtab e) (ridx e) (killers0 e) (killers1 e) (history e) (follow_pv e) (score_pv e) (trace e).
-Definition set_rep e t i := mkEnv (nodes e) (ply e) (stopping e) (npolls e) (pvlen e) (pvtab e) (tbl e) (tt_hits e) t i (killers0 e) (killers1 e) (history e) (follow_pv e) (score_pv e) (trace e).
-Definition set_killers e k0 k1 := mkEnv (nodes e) (ply e) (stopping e) (npolls e) (pvlen e) (pvtab e) (tbl e) (tt_hits e) (rtab e) (ridx e) k0 k1 (history e) (follow_pv e) (score_pv e) (trace e).
-Definition set_history e h := mkEnv (nodes e) (ply e) (stopping e) (npolls e) (pvlen e) (pvtab e) (tbl e) (tt_hits e) (rtab e) (ridx e) (killers0 e) (killers1 e) h (follow_pv e) (score_pv e) (trace e).
-Definition set_flags e f s := mkEnv (nodes e) (ply e) (stopping e) (npolls e) (pvlen e) (pvtab e) (tbl e) (tt_hits e) (rtab e) (ridx e) (killers0 e) (killers1 e) (history e) f s (trace e).
-Definition emit e ev := mkEnv (nodes e) (ply e) (stopping e) (npolls e) (pvlen e) (pvtab e) (tbl e) (tt_hits e) (rtab e) (ridx e) (killers0 e) (killers1 e) (history e) (follow_pv e) (score_pv e) (ev :: trace e).
+Definition set_ply e p := mkEnv (nodes e) p (stopping e) (npolls e) (pvlen e) (pvtab e) (tbl e) (tt_hits e) (rtab e) (ridx e) (killers0 e) (killers1 e) (history e) (follow_pv e) (score_pv e) (trace e) (snap e).
+Definition set_nodes e n := mkEnv n (ply e) (stopping e) (npolls e) (pvlen e) (pvtab e) (tbl e) (tt_hits e) (rtab e) (ridx e) (killers0 e) (killers1 e) (history e) (follow_pv e) (score_pv e) (trace e) (snap e).
+Definition set_pv e l t := mkEnv (nodes e) (ply e) (stopping e) (npolls e) l t (tbl e) (tt_hits e) (rtab e) (ridx e) (killers0 e) (killers1 e) (history e) (follow_pv e) (score_pv e) (trace e) (snap e).
+Definition set_tbl e t := mkEnv (nodes e) (ply e) (stopping e) (npolls e) (pvlen e) (pvtab e) t (tt_hits e) (rtab e) (ridx e) (killers0 e) (killers1 e) (history e) (follow_pv e) (score_pv e) (trace e) (snap e).
+Definition set_hits e h := mkEnv (nodes e) (ply e) (stopping e) (npolls e) (pvlen e) (pvtab e) (tbl e) h (rtab e) (ridx e) (killers0 e) (killers1 e) (history e) (follow_pv e) (score_pv e) (trace e) (snap e).
+Definition set_rep e t i := mkEnv (nodes e) (ply e) (stopping e) (npolls e) (pvlen e) (pvtab e) (tbl e) (tt_hits e) t i (killers0 e) (killers1 e) (history e) (follow_pv e) (score_pv e) (trace e) (snap e).
+Definition set_killers e k0 k1 := mkEnv (nodes e) (ply e) (stopping e) (npolls e) (pvlen e) (pvtab e) (tbl e) (tt_hits e) (rtab e) (ridx e) k0 k1 (history e) (follow_pv e) (score_pv e) (trace e) (snap e).
+Definition set_history e h := mkEnv (nodes e) (ply e) (stopping e) (npolls e) (pvlen e) (pvtab e) (tbl e) (tt_hits e) (rtab e) (ridx e) (killers0 e) (killers1 e) h (follow_pv e) (score_pv e) (trace e) (snap e).
+Definition set_flags e f s := mkEnv (nodes e) (ply e) (stopping e) (npolls e) (pvlen e) (pvtab e) (tbl e) (tt_hits e) (rtab e) (ridx e) (killers0 e) (killers1 e) (history e) f s (trace e) (snap e).
+Definition emit e ev := mkEnv (nodes e) (ply e) (stopping e) (npolls e) (pvlen e) (pvtab e) (tbl e) (tt_hits e) (rtab e) (ridx e) (killers0 e) (killers1 e) (history e) (follow_pv e) (score_pv e) (ev :: trace e) (snap e).
 
 (* RepetitionTable::insert / move_back / is_now_in_threefold_repetition *)
 Definition rep_insert e k := set_rep e (updl (rtab e) (ridx e) k) (S (ridx e)).
@@ -77,7 +79,8 @@ Definition poll e :=
   let e1 := emit e (EPoll k (nodes e) s) in
   let e2 := if s && negb (stopping e) then emit e1 EStopRaised else e1 in
   mkEnv (nodes e2) (ply e2) (stopping e2 || s) (S k) (pvlen e2) (pvtab e2) (tbl e2) (tt_hits e2) (rtab e2) (ridx e2)
-        (killers0 e2) (killers1 e2) (history e2) (follow_pv e2) (score_pv e2) (trace e2).
+        (killers0 e2) (killers1 e2) (history e2) (follow_pv e2) (score_pv e2) (trace e2)
+        (if s && negb (stopping e) then Some (tbl e, pvtab e, pvlen e) else snap e).
 Definition maybe_poll e := if pollp (nodes e) then poll e else e.
 
 (* SearchEnv::insert_pv_node *)
@@ -173,6 +176,42 @@ Inductive lres := LRet (s : Z) (e : env) | LDone (ta : Z) (e : env) (legal : nat
 Definition neg_res (r : res) (k : Z -> env -> lres) : lres :=
   match r with OutOfFuel => LFuel | Val s e => k (- s) e end.
 
+(* what happens after the searches of move m returned `score` in environment e4; `next` continues the loop *)
+Definition after_move (g : pos) (depth : nat) (m : move) (ta beta : Z) (exact : bool) (searched legal : nat)
+                      (next : nat -> nat -> Z -> bool -> env -> lres) (score : Z) (e4 : env) : lres :=
+  let e5 := set_ply e4 (pred (ply e4)) in
+  if stopping e5 then LRet 0 e5 else
+  if score >? ta then
+    let e6 := insert_pv e5 m in
+    if score >=? beta then
+      let e7 := if mv_cap m then e6
+                else set_killers e6 (updl (killers0 e6) (ply e6) (Some m)) (updl (killers1 e6) (ply e6) (nth (ply e6) (killers0 e6) None)) in
+      let e8 := emit e7 (ETTRec (key g) beta depth FBeta (ply e7)) in
+      LRet beta (set_tbl e8 (record (tbl e8) (key g) beta (N.of_nat depth) FBeta (Z.of_nat (ply e8))))
+    else
+      let e7 := if mv_cap m then e6
+                else set_history e6 (updl (history e6) (mv_hidx m) (nth (mv_hidx m) (history e6) 0 + Z.of_nat depth)) in
+      next (S searched) (S legal) score true e7
+  else next (S searched) (S legal) ta exact e5.
+
+(* the searches of one move: full window for the first, otherwise LMR -> PVS null window -> full re-search *)
+Definition search_move (g' : pos) (depth n_depth : nat) (inchk : bool) (m : move) (searched : nat) (ta beta : Z)
+                       (e3 : env) (after : Z -> env -> lres) : lres :=
+  if Nat.eqb searched 0 then
+    neg_res (rec_n g' (n_depth - 1)%nat (- beta) (- ta) e3) after
+  else
+    let pvs (s1 : Z) (e' : env) : lres :=
+      if s1 >? ta then
+        neg_res (rec_n g' (n_depth - 1)%nat (- ta - 1) (- ta) e')
+          (fun s2 e'' =>
+             if (s2 >? ta) && (s2 <? beta) then neg_res (rec_n g' (n_depth - 1)%nat (- beta) (- ta) e'') after
+             else after s2 e'')
+      else after s1 e' in
+    if (Nat.leb (N.to_nat FULL_DEPTH_MOVES) searched) && (Nat.leb (N.to_nat REDUCTION_LIMIT) depth) && negb inchk &&
+       negb (mv_cap m) && negb (mv_promo m)
+    then neg_res (rec_n g' (n_depth - 2)%nat (- ta - 1) (- ta) e3) pvs
+    else pvs (ta + 1) e3.
+
 Fixpoint nloop (g : pos) (depth n_depth : nat) (inchk : bool) (ms : list move) (searched legal : nat)
                (ta beta : Z) (exact : bool) (e : env) : lres :=
   match ms with
@@ -183,36 +222,28 @@ Fixpoint nloop (g : pos) (depth n_depth : nat) (inchk : bool) (ms : list move) (
     | None => nloop g depth n_depth inchk rest searched legal ta beta exact (set_ply e1 (pred (ply e1)))
     | Some (g', e2) =>
       let e3 := rep_back e2 in
-      let after (score : Z) (e4 : env) : lres :=
-        let e5 := set_ply e4 (pred (ply e4)) in
-        if stopping e5 then LRet 0 e5 else
-        if score >? ta then
-          let e6 := insert_pv e5 m in
-          if score >=? beta then
-            let e7 := if mv_cap m then e6
-                      else set_killers e6 (updl (killers0 e6) (ply e6) (Some m)) (updl (killers1 e6) (ply e6) (nth (ply e6) (killers0 e6) None)) in
-            let e8 := emit e7 (ETTRec (key g) beta depth FBeta (ply e7)) in
-            LRet beta (set_tbl e8 (record (tbl e8) (key g) beta (N.of_nat depth) FBeta (Z.of_nat (ply e8))))
-          else
-            let e7 := if mv_cap m then e6
-                      else set_history e6 (updl (history e6) (mv_hidx m) (nth (mv_hidx m) (history e6) 0 + Z.of_nat depth)) in
-            nloop g depth n_depth inchk rest (S searched) (S legal) score beta true e7
-        else nloop g depth n_depth inchk rest (S searched) (S legal) ta beta exact e5 in
-      if Nat.eqb searched 0 then
-        neg_res (rec_n g' (n_depth - 1)%nat (- beta) (- ta) e3) after
-      else
-        let pvs (s1 : Z) (e' : env) : lres :=
-          if s1 >? ta then
-            neg_res (rec_n g' (n_depth - 1)%nat (- ta - 1) (- ta) e')
-              (fun s2 e'' =>
-                 if (s2 >? ta) && (s2 <? beta) then neg_res (rec_n g' (n_depth - 1)%nat (- beta) (- ta) e'') after
-                 else after s2 e'')
-          else after s1 e' in
-        if (Nat.leb (N.to_nat FULL_DEPTH_MOVES) searched) && (Nat.leb (N.to_nat REDUCTION_LIMIT) depth) && negb inchk &&
-           negb (mv_cap m) && negb (mv_promo m)
-        then neg_res (rec_n g' (n_depth - 2)%nat (- ta - 1) (- ta) e3) pvs
-        else pvs (ta + 1) e3
+      search_move g' depth n_depth inchk m searched ta beta e3
+        (after_move g depth m ta beta exact searched legal
+           (fun s l t x e' => nloop g depth n_depth inchk rest s l t beta x e'))
     end
+  end.
+
+(* generate, order and search the moves; verdict or TT record at the end *)
+Definition move_phase (g : pos) (depth n_depth : nat) (inchk : bool) (alpha beta : Z) (e : env) : res :=
+  let ms0 := gen g true in
+  let e := if follow_pv e then enable_pv_scoring ms0 e else e in
+  let '(ms, e) := sort_moves g ms0 e in
+  match nloop g depth n_depth inchk ms 0 0 alpha beta false e with
+  | LFuel => OutOfFuel
+  | LRet s e' => Val s e'
+  | LDone ta e' legal exact =>
+    if Nat.eqb legal 0 then
+      let e' := emit e' (EVerdict inchk (ply e')) in
+      (if inchk then Val (- MATE_VALUE + Z.of_nat (ply e')) e' else Val 0 e')
+    else
+      let f := if exact then FExact else FAlpha in
+      let e'' := emit e' (ETTRec (key g) ta depth f (ply e')) in
+      Val ta (set_tbl e'' (record (tbl e'') (key g) ta (N.of_nat depth) f (Z.of_nat (ply e''))))
   end.
 
 Definition negamax_body (g : pos) (depth : nat) (alpha beta : Z) (e : env) : res :=
@@ -231,31 +262,15 @@ Definition negamax_body (g : pos) (depth : nat) (alpha beta : Z) (e : env) : res
     let e := set_nodes e (N.succ (nodes e)) in
     let inchk := in_check g in
     let n_depth := if inchk then S depth else depth in
-    let continue_ (e : env) : res :=
-      let ms0 := gen g true in
-      let e := if follow_pv e then enable_pv_scoring ms0 e else e in
-      let '(ms, e) := sort_moves g ms0 e in
-      match nloop g depth n_depth inchk ms 0 0 alpha beta false e with
-      | LFuel => OutOfFuel
-      | LRet s e' => Val s e'
-      | LDone ta e' legal exact =>
-        if Nat.eqb legal 0 then
-          let e' := emit e' (EVerdict inchk (ply e')) in
-          (if inchk then Val (- MATE_VALUE + Z.of_nat (ply e')) e' else Val 0 e')
-        else
-          let f := if exact then FExact else FAlpha in
-          let e'' := emit e' (ETTRec (key g) ta depth f (ply e')) in
-          Val ta (set_tbl e'' (record (tbl e'') (key g) ta (N.of_nat depth) f (Z.of_nat (ply e''))))
-      end in
     if Nat.leb 3 n_depth && negb inchk && negb (Nat.eqb (ply e) 0) then
       let e1 := set_ply e (S (ply e)) in
       match rec_n (null g) (n_depth - 3)%nat (- beta) (- beta + 1) e1 with
       | OutOfFuel => OutOfFuel
       | Val s e2 =>
         let e3 := set_ply e2 (pred (ply e2)) in
-        if stopping e3 then Val 0 e3 else if (- s) >=? beta then Val beta e3 else continue_ e3
+        if stopping e3 then Val 0 e3 else if (- s) >=? beta then Val beta e3 else move_phase g depth n_depth inchk alpha beta e3
       end
-    else continue_ e
+    else move_phase g depth n_depth inchk alpha beta e
   end.
 End Body.
 
@@ -282,7 +297,7 @@ Definition mate_field (score : Z) : option Z :=
 
 Definition init_env (t : tt) (rt : list N) (ri : nat) : env :=
   mkEnv 0 0 false 0 (repeat O MAXPLY) (repeat (repeat null_mv MAXPLY) MAXPLY) t 0 rt ri
-        (repeat None MAXPLY) (repeat None MAXPLY) (repeat 0 768) false false [].
+        (repeat None MAXPLY) (repeat None MAXPLY) (repeat 0 768) false false [] None.
 
 (* search(): pv_table[0][0], or the first legal move when that is still the null move *)
 Definition best_move (g : pos) e : move :=
@@ -318,3 +333,11 @@ Definition search (g : pos) (depth : Z) (t : tt) (rt : list N) (ri : nat) : sres
   id_loop (S maxd) g 1 maxd (- INFINITY) INFINITY 0 (init_env t rt ri) [].
 
 End Search.
+
+
+Arguments ENode {pos move}. Arguments ETTHit {pos move}. Arguments ERepHit {pos move}. Arguments EVerdict {pos move}.
+Arguments EPV {pos move}. Arguments ETTRec {pos move}. Arguments EPoll {pos move}. Arguments EStopRaised {pos move}.
+Arguments Val {pos move}. Arguments OutOfFuel {pos move}.
+Arguments LRet {pos move}. Arguments LDone {pos move}. Arguments LFuel {pos move}.
+Arguments OInfo {move}. Arguments OBest {move}.
+Arguments SDone {pos move}. Arguments SFuel {pos move}.
